@@ -678,7 +678,7 @@ def check(cond, label, known=(), detail=None):
         m = c.solver.model()
         c.violations.append({'label': label, 'detail': detail, 'model': _model_dict(c, m),
                              'choices': list(c.notes.get('choices', [])),
-                             'notes': {k: v for k, v in c.notes.items() if k != 'choices'}})
+                             'notes': {k: v for k, v in c.notes.items() if k != 'choices' and not k.startswith('_')}})
         ok = False
     elif r == z3.unknown:
         c.inconclusive.append('check unknown: ' + label)
